@@ -374,4 +374,84 @@ theorem reverseValueSlice_spec (size : Nat) (a b : Int) (ha : 0 ≤ a) (hab : a 
   · simp [pySliceIdx, pyIndices, Option.getD, hstop, pyRange]
     congr 1 <;> (repeat' split) <;> omega
 
+theorem zip_append_left {α β : Type} : ∀ (l1 l2 : List α) (r : List β),
+    (l1 ++ l2).zip r = l1.zip (r.take l1.length) ++ l2.zip (r.drop l1.length) := by
+  intro l1
+  induction l1 with
+  | nil => intro l2 r; simp
+  | cons a l1 ih =>
+    intro l2 r
+    cases r with
+    | nil => simp
+    | cons b r => simp [ih]
+
+/-- what one block assigns: its selected positions paired with its piece of the (possibly mirrored) value -/
+def blockAssign {α : Type} (V : List α) (start stop step l0 l1 : Int) : List (Int × α) :=
+  match blockSlice start stop step l0 l1 with
+  | none => []
+  | some b => (blockPositions start stop step l0 l1).zip ((V.drop b.npre.toNat).take b.size.toNat)
+
+theorem blockAssign_aux {α : Type} (V : List α) (start stop step : Int) (hs : 0 < step) (h0 : 0 ≤ start) (hss : start ≤ stop) :
+    ∀ (ls : List Nat) (acc : Int), 0 ≤ acc →
+      ((locationsFrom acc ls).flatMap fun (l0, l1) => blockAssign V start stop step l0 l1)
+        = ((locationsFrom acc ls).flatMap fun (l0, l1) => blockPositions start stop step l0 l1).zip
+            (V.drop (rangeUp start (min stop acc) step).length) := by
+  intro ls
+  induction ls with
+  | nil => intro acc _; simp [locationsFrom]
+  | cons l ls ih =>
+    intro acc hacc
+    simp only [locationsFrom, List.flatMap_cons]
+    rw [ih (acc + l) (by omega), zip_append_left]
+    have hspec := blockSlice_spec start stop step acc (acc + l) hs h0 hss hacc (by omega)
+    have hpart : ((rangeUp start (min stop (acc + l)) step).length : Int)
+        = ((rangeUp start (min stop acc) step).length : Int) + ((blockPositions start stop step acc (acc + l)).length : Int) := by
+      have hfg := firstGe_ge start step acc hs
+      unfold blockPositions
+      by_cases hlt : start < acc
+      · have hsplit := rangeUp_split (min stop (acc + l)) step acc hs start hlt
+        have e : acc + (start - acc) % step = firstGe start step acc := by
+          unfold firstGe; have : start - acc < 0 := by omega
+          simp [this]
+        rw [hsplit, e, List.length_append]
+        have : min (min stop (acc + l)) acc = min stop acc := by omega
+        rw [this]; simp
+      · have e : firstGe start step acc = start := by unfold firstGe; simp; omega
+        rw [e, rangeUp_nil (by omega : min stop acc ≤ start)]
+        simp
+    congr 1
+    · unfold blockAssign
+      cases hb : blockSlice start stop step acc (acc + l) with
+      | none =>
+        rw [hb] at hspec
+        simp only at hspec
+        rw [hspec]; simp
+      | some b =>
+        rw [hb] at hspec
+        simp only at hspec
+        obtain ⟨_, hsize, _, hnpre⟩ := hspec
+        have e1 : b.npre.toNat = (rangeUp start (min stop acc) step).length := by omega
+        have e2 : b.size.toNat = (blockPositions start stop step acc (acc + l)).length := by omega
+        simp only [e1, e2]
+    · rw [List.drop_drop]
+      congr 2
+      omega
+
+/-- **1-d slice assignment, end to end on the plan**: over all blocks, the pairs (position, value element)
+    that the per-block assignments `x_block[block slice] = value[n_preceding : n_preceding + size]` produce are
+    exactly `zip(selected positions, value)` — each selected position receives its own value element, once. -/
+theorem setitem1d_pairs {α : Type} (V : List α) (lengths : List Nat) (start stop step : Int) (hs : 0 < step)
+    (h0 : 0 ≤ start) (hss : start ≤ stop) (hstop : stop ≤ ((lengths.sum : Nat) : Int)) :
+    ((locations lengths).flatMap fun (l0, l1) => blockAssign V start stop step l0 l1)
+      = (rangeUp start stop step).zip V := by
+  unfold locations
+  rw [blockAssign_aux V start stop step hs h0 hss lengths 0 (by omega)]
+  rw [blockPositions_tile start stop step hs lengths 0]
+  have e1 : firstGe start step 0 = start := by unfold firstGe; simp; omega
+  have e2 : min stop (0 + ((lengths.sum : Nat) : Int)) = stop := by omega
+  have e3 : (rangeUp start (min stop 0) step).length = 0 := by
+    rw [rangeUp_nil (by omega)]; rfl
+  rw [e1, e2, e3]
+  simp
+
 end Dask.SetItem
